@@ -35,6 +35,17 @@ def cases(thorough):
                                 for nw in range(1, len(chunks)):
                                     out.append(rc.base_case(status=status, cl=cl, chunks=chunks, kind=kind, use_write=True, write_first=nw,
                                                             version=version, conn=conn, method=method))
+    # failure after the head was sent: the response can no longer be delimited as announced, the connection is closed
+    # instead of reused (exception classes and log_socket_errors matter: OSError is treated as a socket error)
+    for (version, conn) in (("1.1", ""), ("1.0", "keep-alive")):
+        for cl in ("none", "exact", "larger"):
+            for chunks in ([3, 2], [2, 0, 1]):
+                for kind, use_write in (("gen", False), ("list", True)):
+                    for exc in ("Exception", "OSError"):
+                        for lse in (True, False):
+                            for k in range(1, len(chunks) + 1):
+                                out.append(rc.base_case(cl=cl, chunks=chunks, kind=kind, use_write=use_write, fail="write" if use_write else "iter", fail_k=k,
+                                                        exc=exc, lse=lse, version=version, conn=conn))
     return out
 
 
@@ -53,6 +64,13 @@ def run(chk, replay=None):
         scns.append(cc.mk([P(1), P(2)], lookahead=la, workers=2, split="one", apps={1: {"cl": "larger"}}, name="undelimitable then complete, same read la=%d" % la))
         scns.append(cc.mk([{"k": 1, "kind": "http10"}, P(2)], lookahead=la, workers=2, split="each", name="http10 then complete la=%d" % la))
         scns.append(cc.mk([P(1), P(2)], lookahead=la, workers=2, split="each", room=0, extra_client=slow, apps={1: {"chunks": [3, 3], "cl": "none", "raise_at": 1}}, name="failure after head then complete, slow la=%d" % la))
+    # a large response to a slow reader (the out buffer spills to a file while partly sent) followed by a pipelined
+    # request: the client recovers every body byte and the second response
+    for ov, sizes in ((250, [40] * 8), (300, [60, 10, 60, 60, 60, 60])):
+        for cl in ("exact", "none"):
+            scns.append(cc.mk([P(1), P(2)], lookahead=1, workers=1, room=30, extra_client=[["readall_after_block", 4]],
+                              apps={1: {"chunks": sizes, "cl": cl}}, adj={"outbuf_high_watermark": 1000, "outbuf_overflow": ov},
+                              name="slow reader, outbuf_overflow=%d, %s, then plain" % (ov, "Content-Length" if cl == "exact" else "chunked")))
     n_pct, dfs = (600, 2500) if chk.thorough else (60, 300)
     cc.explore_and_validate(chk, "C03", scns, n_pct, dfs, bound=2, label="persistence")
     for i, e in enumerate(evs):
